@@ -68,7 +68,8 @@ def run(ctx):
          ("HashChains", "MC_HashChainsSet_%s" % tier, "R/HashChains-set", ("Index",), ())],
     ]
     if not ctx.quick:
-        groups.append([("HashChains", "MC_HashChains2_thorough", "R/HashChains-nb2", (), ())])
+        groups.append([("HashChains", "MC_HashChains2_thorough", "R/HashChains-nb2", (), ()),
+                       ("FiniteMap", "MC_FiniteMap_wide", "R/FiniteMap-wide", maponly, ())])
     shape = {"cases": 0, "differs": 0}
 
     def group(g):
